@@ -14,6 +14,7 @@ pub const PSZ_TINY: u32 = 1; // 3..6 vertices
 pub const PSZ_SMALL: u32 = 2; // 6..11 vertices
 pub const PSZ_SPARSE: u32 = 3; // sparse graphs: many re-convergent states
 pub const PSZ_MEDIUM: u32 = 4; // 11..15 vertices
+pub const PSZ_LARGE: u32 = 5; // 16..19 vertices
 
 #[derive(Clone, PartialEq, Eq, Hash, Debug)]
 pub struct PState(pub u32);
@@ -32,7 +33,7 @@ pub struct PInst {
 impl PInst {
     pub fn build(seed: u64, size: u32, variant: Variant) -> PInst {
         let mut rng = Rng::derive(seed, &[0x50, size as u64]);
-        let n = match size { PSZ_TINY => rng.range(3, 6), PSZ_SMALL => rng.range(6, 11), PSZ_MEDIUM => rng.range(11, 15), _ => rng.range(6, 10) } as usize;
+        let n = match size { PSZ_TINY => rng.range(3, 6), PSZ_SMALL => rng.range(6, 11), PSZ_MEDIUM => rng.range(11, 15), PSZ_LARGE => rng.range(16, 19), _ => rng.range(6, 10) } as usize;
         let dens = if size == PSZ_SPARSE { 1 } else { rng.range(1, 3) as u64 };
         let mut adj = vec![0u32; n];
         for a in 0..n {
